@@ -116,4 +116,24 @@ theorem decode_literal_eq (d : DecState) (l : PLit) (h1 : l.oneof) :
     fresh stream resolves it -/
 example : (PLit.setDt {} 3).oneof ∧ (PLit.setLang { lex := "a" } "en").oneof := ⟨Or.inl rfl, Or.inr rfl⟩
 
+/-- `validate_stream_options`: the seven `assert`s, in order, against the options the stream was opened with -/
+theorem validate_stream_options_eq (d : DecState) (o : Options) :
+    (Gen.Decoder.validate_stream_options o).exec d = (d.validateOptions o, d) := by
+  unfold Gen.Decoder.validate_stream_options DecState.validateOptions
+  by_cases h1 : d.opts.physical = o.physicalType
+  · by_cases h2 : d.opts.logical = o.logicalType
+    · by_cases h3 : d.opts.streamName = o.streamName
+      · by_cases h4 : o.version ≤ d.opts.version
+        · by_cases h5 : d.opts.maxPrefixes = o.maxPrefixes
+          · by_cases h6 : d.opts.maxDatatypes = o.maxDatatypes
+            · by_cases h7 : d.opts.maxNames = o.maxNames
+              · py_simp [h1, h2, h3, h4, h5, h6, h7]
+              · py_simp [h1, h2, h3, h4, h5, h6, h7]
+            · py_simp [h1, h2, h3, h4, h5, h6]
+          · py_simp [h1, h2, h3, h4, h5]
+        · py_simp [h1, h2, h3, h4]
+      · py_simp [h1, h2, h3]
+    · py_simp [h1, h2]
+  · py_simp [h1]
+
 end Jelly.Translated
